@@ -5,26 +5,59 @@ class C36(Spec):
     prop = "C36"
     drv = "drv_c36"
     harness = "h_c36"
-    required_theorems = ("C36.reply_matches_request", "C36.reply_lands_in_own_request", "C36.recv_consumes",
-                         "C36.close_unblocks", "C36.discipline_necessary", "C36.reach_inv")
+    required_theorems = ("C36.reply_matches_request", "C36.reply_lands_in_own_request", "C36.recv_at_most_once",
+                         "C36.recv_at_most_once_from", "C36.recv_delivers_sent_request",
+                         "C36.close_unblocks", "C36.after_close_outcomes", "C36.wait_after_close_returns",
+                         "C36.send_after_client_close", "C36.closeclient_closes",
+                         "C36.never_panics_partial", "C36.never_panics_full_false", "C36.close_recv_never_panics",
+                         "C36.discipline_necessary", "C36.reach_inv", "C36.reach_cinv")
+    partial = ("C36.never_panics_partial: no two Close calls of the same client overlap (closeOverlap = false)",
+               "C36.reply_matches_request / recv_at_most_once: callers follow the FreeMessage contract (Reach only "
+               "contains disciplined frees); C36.discipline_necessary is the counterexample without it")
+    refuted = ("C36.never_panics_full_false: two overlapping client.Close() calls, second close(client.done) panics "
+               "(replayed on the real code: finding C36|client.Close|panic-on-concurrent-close)",)
     level_text = ("Lean LTS of the message bus (one label per atomic step of queue.go/client.go: NewMessage, Send on the "
-                  "high/low channel incl. blocked senders, subscriber forward, Reply, Wait/Timeout, FreeMessage, "
-                  "closeTopic, Close) with an inductive invariant proved for every interleaving of any length: whatever "
-                  "Wait takes out of a message's reply buffer was produced for exactly that object and generation; a "
-                  "recv consumes exactly the delivered entry; in any state with the topic/queue closed every new send, "
-                  "every wait and every blocked sender (high or low) has an enabled step returning an error. Tie: a "
-                  "scripted driver performs the same labels on real queue objects (pointer-identified, so pool recycling "
-                  "is observed), outputs compared line by line with the compiled model; plus concurrent stress runs "
-                  "(requesters x responders, timeouts, recycling, close with requests pending) with the predicate "
-                  "evaluated on the implementation.")
+                  "high/low channel incl. blocked senders, subscriber forward, Reply, Wait/WaitTimeout, FreeMessage, "
+                  "closeTopic, queue Close, and the requester's client.Sub/Close split at its racy points). Races of Go's "
+                  "select are explicit label parameters (wait: reply | done; blocked sender: channel | done; timer), and "
+                  "the theorems hold for every resolution. Proved by inductive invariants for every interleaving of any "
+                  "length: whatever a Wait hands out as reply was produced for exactly that object and generation; along "
+                  "every disciplined run from the initial state no tag occurs twice among the recv outputs (history "
+                  "argument: a received request never returns to `queued`), and each received tag is the current, sent "
+                  "request of its object; after a close of the topic/queue/requester's client every new send returns "
+                  "closed, the done-branch of every wait and of every blocked sender is enabled, and no enabled branch "
+                  "yields `blocked`; clientClosed is reachable (closeclient_closes + examples). Panic is an explicit "
+                  "outcome: the claim 'no step panics' is refuted by two overlapping Close calls (replayed on the real "
+                  "code, known finding) and proved when Close calls of one client do not overlap. Tie: a scripted driver "
+                  "performs the same labels on real queue objects (pointer-identified, so pool recycling is observed), "
+                  "outputs compared line by line with the compiled model; where a select race is open (reply buffered at "
+                  "a close) the harness reports the branch Go took and the model must allow it with the same output; "
+                  "plus concurrent stress runs (requesters x responders, timeouts, recycling, close with requests pending) "
+                  "with the predicate evaluated on the implementation.")
     level_note = ("Go channel semantics (FIFO, at-most-once receive), select fairness, timers and sync.Pool's reuse policy "
-                  "are runtime behaviour: the model takes the recycled object identity from the observation. The theorem "
-                  "holds under the documented FreeMessage discipline (free only what nobody references); the theorem "
+                  "are runtime behaviour: the model takes the recycled object identity from the observation. The theorems "
+                  "hold under the documented FreeMessage discipline (free only what nobody references); "
                   "discipline_necessary and the harness's `stale` scenario show the same stale reply on model and code "
-                  "when a caller violates it (no in-repo caller does). Liveness is stated as enabledness after close, not "
-                  "under a fairness assumption. One topic is modelled.")
+                  "when a caller violates it (no in-repo caller does). Liveness is stated as enabledness of a ready select "
+                  "case after close, not under a fairness assumption. One topic and one requester client are modelled. "
+                  "Select races: the wait race (reply vs done) is exercised on the real code with the observed branch; the "
+                  "blocked-sender race after a close (the sender slips into the orphaned channel because the pump drained "
+                  "it) is allowed by the model but never observed by the harness, whose full-channel scenario has no "
+                  "subscriber, so nothing drains the orphaned channel and only the done case is ever ready; recv after a "
+                  "close is allowed by the model and not exercised. Abstractions declared in the Model docstring: the "
+                  "channel + client.recv buffer + pump hand are one list; client.Close's drain loop (ErrChannelClosed "
+                  "replies to requests still in client.recv) is indistinguishable from the done branch for the requester "
+                  "and not modelled. 'Or crashing': panic sources enumerated — (1) Wait/Send panic on ErrQueueTimeout: "
+                  "dead code, timeout -1 gives a nil timer channel, so the model has no timer branch for them; (2) "
+                  "close(client.done) twice by overlapping Close calls: modelled, refuted/partial theorems, real-code "
+                  "replay; (3) close(client.recv) twice: modelled, proved unreachable (close_recv_never_panics); (4) Sub "
+                  "racing Close of the same client (a pump started between close(done) and isCloseing=1 could send on the "
+                  "closed recv) and CloseQueue called twice without Start (blocks on `interrupt`): not modelled, covered "
+                  "by nothing but the stress run's panic counter; (5) sends/waits/replies themselves: covered by the "
+                  "stress run (panic predicate) and by gen.Guard in the scripted run.")
     assumptions = ("callers follow the FreeMessage contract (in-repo callers free only after a successful Wait)",
-                   "Go channels/select/sync.Pool behave as specified by the language/runtime")
+                   "Go channels/select/sync.Pool behave as specified by the language/runtime",
+                   "for the no-panic clause: Close calls of one client do not overlap (otherwise: known finding)")
     quick_timeout = 600
 
 
